@@ -15,7 +15,7 @@
 //!   × delivery {literal, `$v` provided at the site, `$v` defaulted at the site, `$v` provided for the whole
 //!     argument, `$v` defaulted for the whole argument}
 //!   × syntactic context {direct, `... on T {}`, `... {}`, named fragment, fragment spread from a fragment}
-//!   × {named, anonymous operation}  (thorough: × {alias, no alias} × {control argument first, last}).
+//!   × {named, anonymous operation} × {enclosing field aliased, not}  (thorough: × {alias, no alias} × {control argument first, last}).
 //! Every case carries a unique secret sentinel and control sentinels in non-secret positions.
 //!
 //! Oracle: the secret sentinel does not occur in the produced text. Non-vacuity: the top-level control
@@ -319,6 +319,8 @@ struct Case {
     named: bool,
     alias: bool,
     ctl_last: bool,
+    /// the enclosing `node` field carries an alias (nested cases only)
+    anc_alias: bool,
 }
 
 struct Built {
@@ -395,7 +397,7 @@ fn build(c: &Case, id: usize) -> Built {
         3 => ("...Fa".to_string(), format!(" fragment Fa on {ty} {{ {field} }}")),
         _ => ("...Fa".to_string(), format!(" fragment Fa on {ty} {{ ...Fb }} fragment Fb on {ty} {{ {field} }}")),
     };
-    let body = if c.nested { format!("{{ node {{ {sel} }} }}") } else { format!("{{ {sel} }}") };
+    let body = if c.nested { format!("{{ {}node {{ {sel} }} }}", if c.anc_alias { "nd: " } else { "" }) } else { format!("{{ {sel} }}") };
     let head = if c.named {
         format!("{kw} Op{header} ")
     } else if header.is_empty() && c.root == 0 {
@@ -481,7 +483,7 @@ fn keys(v: Violation, c: &Case, place: &str) -> Violation {
 
 fn case_json(c: &Case, id: usize, b: &Built) -> serde_json::Value {
     json!({"id": id, "root": c.root, "nested": c.nested, "path": c.path, "shape": c.shape, "delivery": c.delivery, "ctx": c.ctx,
-           "named": c.named, "alias": c.alias, "ctl_last": c.ctl_last, "document": b.doc, "variables": b.vars, "sentinel": b.sentinel})
+           "named": c.named, "alias": c.alias, "ctl_last": c.ctl_last, "anc_alias": c.anc_alias, "document": b.doc, "variables": b.vars, "sentinel": b.sentinel})
 }
 
 fn body_leaks(schema: &S, c: &Case, id: usize) -> Option<bool> {
@@ -579,7 +581,12 @@ fn all_cases(thorough: bool) -> Vec<Case> {
                         for ctx in 0..CTXS.len() {
                             for named in [true, false] {
                                 for (alias, ctl_last) in extra {
-                                    v.push(Case { root, nested, path, shape, delivery, ctx, named, alias: *alias, ctl_last: *ctl_last });
+                                    for anc_alias in [false, true] {
+                                        if anc_alias && !nested {
+                                            continue;
+                                        }
+                                        v.push(Case { root, nested, path, shape, delivery, ctx, named, alias: *alias, ctl_last: *ctl_last, anc_alias });
+                                    }
                                 }
                             }
                         }
@@ -597,7 +604,7 @@ pub fn run(cx: &Cx) {
          root type (Query/Mutation/Subscription) x field position (root/nested object) x path to the site (secret argument; secret input field at depth 1,2,3; \
          field of an object inside a list argument; inside a list field) x shape of the secret value (string, list element, object field, object-in-list field, \
          nested two deep) x delivery (literal, $v provided at site, $v default at site, $v provided for whole argument, $v default for whole argument) x context \
-         (direct, typed inline fragment, untyped inline fragment, named fragment, fragment spread from a fragment) x (named, anonymous) [thorough: x alias x argument order]. \
+         (direct, typed inline fragment, untyped inline fragment, named fragment, fragment spread from a fragment) x (named, anonymous) x (nested positions: enclosing field aliased or not) [thorough: x alias on the field x argument order]. \
          Non-trivial = the request executed without error, the resolver echoed the sentinel (it reached the secret site) and the non-secret control sentinels occur in the produced text.",
     );
     cx.assume("only valid requests are generated (each is executed and must succeed); text produced for documents that fail validation is not examined");
